@@ -33,6 +33,10 @@ def base_syms(sym, out=None):
         return out
     if sym[0] == "const":
         return out
+    if sym[0] in ("in", "startswith", "endswith", "isdigit", "isalpha", "fstring", "str?", "top", "lower",
+                  "upper", "strip", "format", "replace", "join", "len", "count", "find", "hasattr",
+                  "isinstance", "allany", "float?", "clock"):
+        return out      # outside the evaluable fragment: the condition is treated as free
     if sym[0] == "anyof":
         for conj in sym[1]:
             for c, _ in conj:
@@ -184,6 +188,14 @@ def _mkdt(y, m, d, h, mi):
     return _dt.datetime(int(y), int(m), int(d), int(h or 0), int(mi or 0))
 
 
+def _validdate(y, m, d):
+    try:
+        _dt.date(int(y), int(m), int(d))
+        return True
+    except (ValueError, OverflowError):
+        return False
+
+
 def _code(sym, index):
     if not isinstance(sym, tuple) or not sym:
         raise Undecided("term {!r}".format(sym))
@@ -234,6 +246,10 @@ def _code(sym, index):
         return "{}({})".format(h, ", ".join(_code(s, index) for s in sym[1:]))
     if h == "abs":
         return "abs({})".format(_code(sym[1], index))
+    if h == "tuple":
+        return "({},)".format(", ".join(_code(x, index) for x in sym[1]))
+    if h == "validdate":
+        return "_validdate({}, {}, {})".format(*[_code(x, index) for x in sym[1:4]])
     if h == "select":
         return "({},)[{}]".format(", ".join(_code(x, index) for x in sym[1]), _code(sym[2], index))
     if h == "monthlen":
@@ -280,7 +296,7 @@ def compile_path(conds, terms, leaves_order):
     if f is None:
         import calendar as _cal
         ns = {"_mkdt": _mkdt, "_rd": _rd, "_monthlen": lambda y, m: _cal.monthrange(int(y), int(m))[1],
-              "_isleap": lambda y: _cal.isleap(int(y))}
+              "_isleap": lambda y: _cal.isleap(int(y)), "_validdate": _validdate}
         exec(src, ns)
         f = ns["_f"]
         _COMPILED[src] = f
